@@ -31,6 +31,7 @@ class World:
         self.nm, self.np = nm, np_
         self.classes = classes
         self.proj = {1: api.Project(), 2: api.Project()}
+        self.proj[2].based_on_version = (1, 9, 4, 0)      # project 2 was once started in an old SunVox (the stamp survives every save)
         self.mod = {1: self.proj[1].output, 2: self.proj[2].output}
         for m in range(3, nm + 1):
             self.mod[m] = self.cls_of(m)()
@@ -143,7 +144,10 @@ class World:
                 if len(objs) == 1 and objs[0] is not None and (rnd is None or rnd.random() < 0.7):
                     p += objs[0]
                 else:
-                    if any(o is None for o in objs):
+                    self._iadd_n = getattr(self, "_iadd_n", 0) + 1
+                    if len(objs) >= 2 and not any(o is None for o in objs) and self._iadd_n % 2:
+                        p += [objs[:1], objs[1:]]          # nested lists are flattened
+                    elif any(o is None for o in objs):
                         # `project += [None]` is not a way to add an empty pattern slot; use the method
                         for o in objs:
                             if o is None:
